@@ -356,7 +356,13 @@ def specStmt (v : String) (sd : SD) (st : SSt) (s : Stmt) (res : String) : Strin
     | some sh =>
       if res == "na" then
         (if kind == "back" && isV3 && sh.bounded then fail "Reverse availability" res "bounded value must assert to FiniteSequence" else "ok", st)
-      else if res == "ok" then ("ok", { st with iters := st.iters.push ⟨h, kind == "back", 0⟩ })
+      else if res == "ok" then
+        let st' := { st with iters := st.iters.push ⟨h, kind == "back", 0⟩ }
+        -- v1/v2 iterators are eager (C06 exempts only v3 creation): FullIterator fetches its first
+        -- item when it is created, FullReverse reads the whole sequence — creation asks about those positions
+        if isV3 then ("ok", st')
+        else if kind == "back" then ("ok", bump st' (match upper sd.len sh.win with | some u => u | none => 0))
+        else ("ok", bump st' (reachOf sh.win (windowList sd.len sd.digit sh.win 1) 1))
       else (fail "iterator creation" res "ok", st)
   | .nx it n =>
     match st.iters[it]? with
